@@ -44,6 +44,7 @@ class FakePool:
 
     def imap_unordered(self, func, iterable, chunksize=1):
         tasks = list(iterable)
+        func = pickle.loads(pickle.dumps(func))      # the job and its bound arguments travel to the workers by pickle too
         results = [pickle.loads(pickle.dumps(func(pickle.loads(pickle.dumps(t))))) for t in tasks]
         perm = list(FakePool.order(len(tasks)))
         assert sorted(perm) == list(range(len(tasks)))
@@ -121,6 +122,7 @@ def run(prop, tier, seed, replay):
             field = G.make_field(rng, num_patches=N, spread=0.06)
             cents = AngularCoordinates(np.column_stack([field["ra"], field["dec"]]))
             edges = [0.1, 0.4, 0.7, 1.0]
+            closed = "left" if ci % 2 == 0 else "right"      # the non-default side must survive the way to the workers
             sD = G.make_sample(rng, field, n=12 * N, extent_mode="wide", zrange=(0.1, 1.0), edges=edges, weights=True)
             sR = G.make_sample(rng, field, n=25 * N, extent_mode="wide", zrange=(0.1, 1.0), edges=edges, weights=False)
             sU = G.make_sample(rng, field, n=20 * N, extent_mode="wide", zrange=(0.1, 1.0), weights=True)
@@ -130,7 +132,7 @@ def run(prop, tier, seed, replay):
             # a patch of the data without any object in the last redshift bin
             sel = sD["patch"] == 0
             sD["z"][sel & (sD["z"] > 0.7)] = 0.5
-            rep = {"N": N, "samples": {k: {a: np.asarray(v).tolist() for a, v in s.items() if a in ("ra", "dec", "z", "w")}
+            rep = {"N": N, "closed": closed, "samples": {k: {a: np.asarray(v).tolist() for a, v in s.items() if a in ("ra", "dec", "z", "w")}
                                        for k, s in (("D", sD), ("R", sR), ("U", sU))},
                    "centres": [field["ra"].tolist(), field["dec"].tolist()]}
             with C.Workers(1):
@@ -140,21 +142,21 @@ def run(prop, tier, seed, replay):
                 except ValueError:
                     ck.count("rejected:empty-patch")
                     continue
-                conf = Configuration.create(rmin=[0.003, 0.01], rmax=[0.02, 0.08], unit="rad", edges=edges)
+                conf = Configuration.create(rmin=[0.003, 0.01], rmax=[0.02, 0.08], unit="rad", edges=edges, closed=closed)
                 ref = {
                     "load": snapshot_catalog(Catalog(root / f"c{ci}_D")),
                     "auto": yaw.autocorrelate(conf, cats["D"], cats["R"], count_rr=True),
                     "cross": yaw.crosscorrelate(conf, cats["D"], cats["U"], ref_rand=cats["R"]),
                     "hist": HistData.from_catalog(cats["D"], conf),
                 }
-                cats["D"].build_trees(edges, closed="right", force=True)
+                cats["D"].build_trees(edges, closed=closed, force=True)
                 ref["trees"] = snapshot_trees(cats["D"])
 
             def entry(name):
                 if name == "load":
                     return snapshot_catalog(Catalog(root / f"c{ci}_D"))
                 if name == "trees":
-                    cats["D"].build_trees(edges, closed="right", force=True)
+                    cats["D"].build_trees(edges, closed=closed, force=True)
                     return snapshot_trees(cats["D"])
                 if name == "auto":
                     return yaw.autocorrelate(conf, cats["D"], cats["R"], count_rr=True)
